@@ -388,8 +388,12 @@ def disk_decide(ck, layouts, cases, model_answers, cov):
     return mvi, ivo
 
 
-def compact_decide(ck, cases, manswers, cov):
+SIG_MISSING = "scan:read-error-ends-scan"
+
+
+def compact_decide(ck, cases, manswers, cov, wants=None):
     """Background compaction reads the corrupted block first (c18 compact)."""
+    wants = wants or {}
     mvi = {"compared": 0, "disagree": 0}
     ivo = {"compared": 0, "disagree": 0, "known": 0}
     dist = Counter()
@@ -402,12 +406,24 @@ def compact_decide(ck, cases, manswers, cov):
         pk = case["patch"].split(":")[0]
         if not case["changed"]:
             continue
-        replay = {"file": case["file"], "patch": case["patch"], "seq": case["seq"], "observed": res[:1200], "model": m,
-                  "how": "c18 compact: table t in two row-sets, one block corrupted; A: compaction pass x2, SELECT, reopen, SELECT x2; B: SELECT, compaction pass, SELECT, reopen, SELECT x2"}
+        keyed = bool(case.get("keyed"))
+        tbl = "keyed" if keyed else "keyless"
+        replay = {"file": case["file"], "table": "t (a int primary key, b varchar): scans and compaction merge one child iterator per row-set (MergeIterator)" if keyed else "t (a int, b varchar): concat scan path",
+                  "patch": case["patch"], "block": case["block"], "blocks_in_file": case.get("nblocks"), "seq": case["seq"], "observed": res[:1200], "model": m,
+                  "how": "c18 compact: table t in two row-sets of 20 rows (target_block_size 64: several blocks per column), one block corrupted; A: compaction pass x2, SELECT .. ORDER BY a, reopen, SELECT x2; B: SELECT, compaction pass, SELECT, reopen, SELECT x2; oracle: Err, or exactly the 40 original rows"}
         ivo["compared"] += 1
         viol = []
+        raw = dict(re.findall(r"(q1|q2|r1|r2):(DIFF:(?:\([^)]*\) ?)*)", res))
         for q in ("q1", "q2", "r1", "r2"):
             if r.get(q) == "DIFF":
+                # judged on the rows returned: fewer rows, every one of them an original row => nothing
+                # was altered, a part of the table is silently missing (a read error ended a scan)
+                got = re.findall(r"\(([^)]*)\)", raw.get(q, ""))
+                want_rows = wants.get(keyed, [])
+                if want_rows and len(got) < len(want_rows) and set(got) <= set(want_rows) and len(set(got)) == len(got):
+                    viol.append((SIG_MISSING, "%s returns Ok with %d of the %d rows (none altered; missing: %s ..): a block of the table fails verification, the query must fail instead"
+                                 % (q, len(got), len(want_rows), " ".join("(%s)" % x for x in want_rows if x not in set(got))[:120])))
+                    continue
                 cents = [tuple(int(x) for x in e.split(",")) for e in case["entries"].split(";")]
                 cdata = bytes.fromhex(case["hex"])
                 if declares_no_checksum(apply_patch_py(cdata, case["patch"], cents), cents, case["block"]):
@@ -423,7 +439,7 @@ def compact_decide(ck, cases, manswers, cov):
                 viol.append((sig, "%s returns Ok with different rows%s" % (q, " from the row-set a compaction pass wrote (valid checksums)" if sig == SIG_LAUNDER else "")))
         if r.get("u") != "same":
             viol.append((None, "untouched table u = %s" % r.get("u")))
-        dist["%s/%s -> c1:%s c2:%s newrowset:%s reopen:%s" % (case["seq"], pk, r.get("c1"), r.get("c2", "-"), newdir, r.get("r1"))] += 1
+        dist["%s/%s/%s%s -> c1:%s c2:%s newrowset:%s reopen:%s" % (tbl, case["seq"], pk, "" if case["block"] == 0 else "@later-block", r.get("c1"), r.get("c2", "-"), newdir, r.get("r1"))] += 1
         if viol:
             ivo["disagree"] += 1
         for sig, what in viol:
@@ -431,7 +447,7 @@ def compact_decide(ck, cases, manswers, cov):
                 if ck.report(sig, "compaction sequence %s, %s: %s" % (case["seq"], case["patch"], what), replay=replay) == "known":
                     ivo["known"] += 1
             else:
-                ck.report("compact:%s/%s" % (case["seq"], pk), what, replay=replay)
+                ck.report("compact:%s/%s/%s" % (tbl, case["seq"], pk), what, replay=replay)
         # model: reads of the affected block in order (first load, then cache hits)
         mvi["compared"] += 1
         outs = m.split(" ")
@@ -446,7 +462,7 @@ def compact_decide(ck, cases, manswers, cov):
             ok = newdir or "panic" in (r.get("c1"), r.get("c2"))   # accepted at once (e.g. zero12 / padding bits)
         if not ok:
             mvi["disagree"] += 1
-            ck.report("corr:compact/%s/%s" % (case["seq"], pk), "model prediction and compaction outcome disagree: model %s observed %s" % (m[:160], res[:300]),
+            ck.report("corr:compact/%s/%s/%s" % (tbl, case["seq"], pk), "model prediction and compaction outcome disagree: model %s observed %s" % (m[:160], res[:300]),
                       replay=replay, found_input=False)
     cov.setdefault("distribution", {})["compaction_cases"] = dict(sorted(dist.items()))
     return mvi, ivo
@@ -596,11 +612,18 @@ def run(ck):
     manswers = [l.strip() for l in mout.split("\n")][:len(cases)]
     dmvi, divo = disk_decide(ck, layouts, cases, manswers, cov)
     # ---- compaction reads it first
-    n_comp = 260 if ck.quick() else 3000
-    ck.log("compaction level: %d cases (two row-sets, one corrupted block, compaction passes before/after queries)" % n_comp)
+    n_comp = 320 if ck.quick() else 3000
+    ck.log("compaction level: %d cases (two row-sets, one corrupted block, compaction passes before/after queries; half on a keyed table = MergeIterator path)" % n_comp)
     rc4, cout = vlib.sh([vlib.harness_bin("c18"), "compact", ck.work, str(n_comp)], timeout=3000)
     ccases = []
+    cwants = {}
     for line in cout.split("\n"):
+        if line.startswith("{\"compact_want\""):
+            try:
+                w = json.loads(line)
+                cwants[bool(w.get("keyed"))] = re.findall(r"\(([^)]*)\)", w["compact_want"])
+            except ValueError:
+                pass
         if line.startswith("{\"file\""):
             try:
                 ccases.append(json.loads(line))
@@ -615,7 +638,7 @@ def run(ck):
         creq.append("col %s %s %s C g%d g%d g%d F g%d" % (c.get("hex", ""), c.get("entries", ""), c["patch"], c["block"], c["block"], c["block"], c["block"]))
     rcm2, mout2 = vlib.sh([vlib.lean_exe("drv_c18")], stdin="\n".join(creq) + "\n")
     cmans = [l.strip() for l in mout2.split("\n")][:len(ccases)]
-    cmvi, civo = compact_decide(ck, ccases, cmans, cov)
+    cmvi, civo = compact_decide(ck, ccases, cmans, cov, cwants)
     for name, st in bad.items():
         ck.report("thm:" + name, "theorem %s is not discharged (%s)" % (name, st.get("status")), replay={"theorem": name, "status": st}, found_input=False)
     cov.setdefault("distribution", {}).update({"column_level_requests": dict(kinds), "column_level_outcomes": dict(sorted(outcomes.items())),
